@@ -69,23 +69,24 @@ func (a *arena) load(in []byte) []byte {
 	return a.mem[guardLen:end:end]
 }
 
-// intact reports the first destroyed canary (-1 if none), as an offset relative to the window start.
-func (a *arena) intact() int {
+// intact reports whether every canary is in place; if not, at is the offset of the first
+// destroyed one relative to the window start (negative = before the window).
+func (a *arena) intact() (at int, ok bool) {
 	end := guardLen + a.n
 	if bytes.Equal(a.mem[:guardLen], a.tmpl[:guardLen]) && bytes.Equal(a.mem[end:], a.tmpl[end:]) {
-		return -1
+		return 0, true
 	}
 	for i := 0; i < guardLen; i++ {
-		if a.mem[i] != canaryAt(i) {
-			return i - guardLen
+		if a.mem[i] != a.tmpl[i] {
+			return i - guardLen, false
 		}
 	}
 	for i := end; i < len(a.mem); i++ {
-		if a.mem[i] != canaryAt(i) {
-			return i - guardLen
+		if a.mem[i] != a.tmpl[i] {
+			return i - guardLen, false
 		}
 	}
-	return -1
+	return 0, true
 }
 
 func (a *arena) repair() {
@@ -249,7 +250,7 @@ func (w *parserWorker) bad(fn string, ci, gi int, in []byte, a *rwArgs, buf []by
 			func() any { return replayObj(fn, codec, gen, in, a) })
 		return true
 	}
-	if at := w.ar.intact(); at != -1 {
+	if at, ok := w.ar.intact(); !ok {
 		w.violation("parser-out-of-bounds-write:"+fn+":"+cl,
 			fmt.Sprintf("%s(%q, %d bytes) wrote outside the packet at offset %d", fn, codec, len(in), at),
 			func() any { return replayObj(fn, codec, gen, in, a) })
@@ -848,7 +849,7 @@ func (w *parserWorker) sdpfragOne(r *rand.Rand) {
 		w.violation("parser-panic:sdpfrag.Unmarshal:-:"+cls, "SDPFrag.Unmarshal panicked: "+cls, rep("sdpfrag.Unmarshal"))
 		return
 	}
-	if at := w.big.intact(); at != -1 {
+	if at, ok := w.big.intact(); !ok {
 		w.violation("parser-out-of-bounds-write:sdpfrag.Unmarshal:-", fmt.Sprintf("SDPFrag.Unmarshal wrote outside its input at offset %d", at), rep("sdpfrag.Unmarshal"))
 		w.big.repair()
 	}
@@ -960,6 +961,32 @@ func (w *parserWorker) chunk(ci uint64) {
 			w.sdpfragOne(r)
 		}
 	}
+}
+
+// arenaSelfTest: the oracle itself notices writes on either side of the window.
+func arenaSelfTest() bool {
+	a := newArena(maxPkt)
+	buf := a.load(make([]byte, 100))
+	if _, ok := a.intact(); !ok || cap(buf) != len(buf) {
+		return false
+	}
+	a.mem[guardLen+100] ^= 0xFF
+	if at, ok := a.intact(); ok || at != 100 {
+		return false
+	}
+	a.repair()
+	a.mem[guardLen-1] ^= 0xFF
+	if at, ok := a.intact(); ok || at != -1 {
+		return false
+	}
+	a.repair()
+	a.load(make([]byte, 10)) // a shorter input: the bytes 10..99 are canaries again
+	if _, ok := a.intact(); !ok {
+		return false
+	}
+	a.mem[guardLen+10] ^= 0xFF
+	at, ok := a.intact()
+	return !ok && at == 10
 }
 
 func newParserWorker(run *vk.Run) *parserWorker {
